@@ -690,6 +690,11 @@ impl ResourceDef {
             },
 
             PatternType::Dynamic(re, names) => {
+                // `Path` stores segment offsets as `u16`; a longer path cannot be captured
+                if path.as_str().len() > usize::from(u16::MAX) {
+                    return false;
+                }
+
                 let captures = match re.captures(path.unprocessed()) {
                     Some(captures) => captures,
                     _ => return false,
@@ -708,6 +713,11 @@ impl ResourceDef {
             }
 
             PatternType::DynamicSet(re, params) => {
+                // `Path` stores segment offsets as `u16`; a longer path cannot be captured
+                if path.as_str().len() > usize::from(u16::MAX) {
+                    return false;
+                }
+
                 let path = path.unprocessed();
                 let (pattern, names) = match re.first_match_idx(path) {
                     Some(idx) => &params[idx],
